@@ -45,7 +45,12 @@ pub fn parse_shape(k: &mut Toks) -> Option<Result<AnyShape, String>> {
             for _ in 0..n {
                 items.push(Line2::new((k.f()?, k.f()?), (k.f()?, k.f()?)));
             }
-            AnyShape::Line(LineShape { name: "Lines".to_string(), items })
+            // through the public fields of a constructed shape (not a struct literal): this is what a
+            // user of the library can write, and it keeps compiling when the crate adds a field
+            let mut sh = LineShape::from_radial("Lines", vec![1.; 3]).ok()?;
+            sh.name = "Lines".to_string();
+            sh.items = items;
+            AnyShape::Line(sh)
         }
         "circle" => AnyShape::Mol(MolecularShape2::circle()),
         "trimer" => AnyShape::Mol(MolecularShape2::from_trimer(k.f()?, k.f()?, k.f()?)),
@@ -55,7 +60,10 @@ pub fn parse_shape(k: &mut Toks) -> Option<Result<AnyShape, String>> {
             for _ in 0..n {
                 items.push(Atom2::new(k.f()?, k.f()?, k.f()?));
             }
-            AnyShape::Mol(MolecularShape2 { name: "Atoms".to_string(), items })
+            let mut sh = MolecularShape2::circle();
+            sh.name = "Atoms".to_string();
+            sh.items = items;
+            AnyShape::Mol(sh)
         }
         "ljcircle" => AnyShape::LJ(LJShape2::circle()),
         "ljtrimer" => AnyShape::LJ(LJShape2::from_trimer(k.f()?, k.f()?, k.f()?)),
@@ -65,9 +73,12 @@ pub fn parse_shape(k: &mut Toks) -> Option<Result<AnyShape, String>> {
             for _ in 0..n {
                 let (x, y, s, e) = (k.f()?, k.f()?, k.f()?, k.f()?);
                 let c = crate::opt::opt_f(k)?;
-                items.push(LJ2 { position: Point2::new(x, y), sigma: s, epsilon: e, cutoff: c });
+                items.push({ let mut p = LJ2::new(x, y, s); p.epsilon = e; p.cutoff = c; p });
             }
-            AnyShape::LJ(LJShape2 { name: "LJs".to_string(), items })
+            let mut sh = LJShape2::circle();
+            sh.name = "LJs".to_string();
+            sh.items = items;
+            AnyShape::LJ(sh)
         }
         _ => return None,
     }))
@@ -109,7 +120,7 @@ pub fn exec_pair(op: &str, t: &[&str]) -> Option<String> {
             let mut mk = |k: &mut Toks| -> Option<LJ2> {
                 let (x, y, s, e) = (k.f()?, k.f()?, k.f()?, k.f()?);
                 let c = crate::opt::opt_f(k)?;
-                Some(LJ2 { position: Point2::new(x, y), sigma: s, epsilon: e, cutoff: c })
+                Some({ let mut p = LJ2::new(x, y, s); p.epsilon = e; p.cutoff = c; p })
             };
             let a = mk(&mut k)?;
             let b = mk(&mut k)?;
